@@ -107,6 +107,8 @@ def constraints_spec(draw):
             c[key] = False
     if draw(st.integers(0, 5)) == 5:
         c["maxTempChange"] = draw(st.floats(0.1, 10.0))
+    if draw(st.integers(0, 5)) == 5:
+        c["minRadius"] = draw(st.sampled_from([1e-10, 6e-10, 1e-9, 2e-9]))     # documented constraint, default 3e-10 (the per-phase Rmin of the nucleation barrier keeps its own default)
     if draw(st.integers(0, 4)) == 4:
         c["minComposition"] = 10 ** draw(st.floats(-12, -6))
         if draw(st.booleans()):
